@@ -1476,6 +1476,14 @@ where
         }
     }
 
+    if !refusal_expected
+        && !m.tin.is_empty()
+        && m.tin.iter().all(|t| t.kind == "pkh")
+        && ["ss", "so", "ao", "ai"].iter().all(|k| sh[*k] == 0)
+    {
+        st.inc("staged_signing");
+        errs.extend(staged_signing(x, &m, &mut rng));
+    }
     st.time("build_path", t0);
     let t0 = std::time::Instant::now();
     // ---- DeferredPcztBuilder (anchors deferred, ZIP 374): Orchard/Ironwood-only requests ---------
@@ -1577,6 +1585,65 @@ where
         }
     }
     errs
+}
+
+/// The staged signing path of the transparent builder (prepare_transparent_signatures ->
+/// append_external_signatures -> finalize_signatures) on the transparent-only P2PKH requests: the
+/// signatures are made outside (secp256k1, over signature_hash) and handed over in reverse order.
+fn staged_signing(x: &J, m: &Mat, rng: &mut ChaCha20Rng) -> Vec<String> {
+    use zcash_primitives::transaction::Unauthorized;
+    let attempt = guarded(|| -> Result<zcash_primitives::transaction::Transaction, String> {
+        let mut tb = zcash_transparent::builder::TransparentBuilder::empty();
+        for t in &m.tin {
+            let SpendInfo::P2pkh { pubkey } = &t.spend_info else { return Err("harness: not a P2PKH coin".into()) };
+            tb.add_p2pkh_input(*pubkey, t.utxo.clone(), t.coin.clone()).map_err(|e| format!("add_p2pkh_input: {e:?}"))?;
+        }
+        for (addr, _, v) in &m.tout {
+            tb.add_output(addr, Zatoshis::from_u64(*v).unwrap()).map_err(|e| format!("add_output: {e:?}"))?;
+        }
+        let bundle = tb.build().ok_or("no bundle")?;
+        let version = version_of(x["ver"].as_str().unwrap());
+        let expiry = BlockHeight::from_u32(m.height + 40);
+        let data: TransactionData<Unauthorized> = if version == TxVersion::V6 {
+            TransactionData::from_parts_v6(m.branch, 0, expiry, Some(bundle.clone()), None, None, None)
+        } else {
+            TransactionData::from_parts(version, m.branch, 0, expiry, Some(bundle.clone()), None, None, None)
+        };
+        let txid_parts = data.digest(TxIdDigester);
+        let verify = secp256k1::Secp256k1::verification_only();
+        let sign = secp256k1::Secp256k1::signing_only();
+        let ctx = bundle
+            .clone()
+            .prepare_transparent_signatures(|input| *signature_hash(&data, &SignableInput::Transparent(input), &txid_parts).as_ref(), &verify)
+            .map_err(|e| format!("prepare_transparent_signatures: {e:?}"))?;
+        let mut sigs = vec![];
+        for (j, t) in m.tin.iter().enumerate() {
+            let si = zcash_transparent::sighash::SignableInput::from_parts(&bundle, SighashType::ALL, j, t.coin.script_pubkey(), t.coin.script_pubkey(), t.coin.value())
+                .map_err(|e| format!("{e}"))?;
+            let h: [u8; 32] = *signature_hash(&data, &SignableInput::Transparent(si), &txid_parts).as_ref();
+            sigs.push(sign.sign_ecdsa(&secp256k1::Message::from_digest(h), &t.keys[0].0));
+        }
+        sigs.reverse();
+        if rng.next_u32() % 2 == 0 && sigs.len() > 1 {
+            sigs.swap(0, 1);
+        }
+        // in two batches
+        let (first, rest) = sigs.split_at(sigs.len() / 2);
+        let ctx = ctx.append_external_signatures(first).map_err(|e| format!("append_external_signatures: {e:?}"))?;
+        let ctx = ctx.append_external_signatures(rest).map_err(|e| format!("append_external_signatures: {e:?}"))?;
+        let signed = ctx.finalize_signatures().map_err(|e| format!("finalize_signatures: {e:?}"))?;
+        let full: TransactionData<zcash_primitives::transaction::Authorized> = if version == TxVersion::V6 {
+            TransactionData::from_parts_v6(m.branch, 0, expiry, Some(signed), None, None, None)
+        } else {
+            TransactionData::from_parts(version, m.branch, 0, expiry, Some(signed), None, None, None)
+        };
+        full.freeze().map_err(|e| format!("freeze: {e:?}"))
+    });
+    match attempt {
+        Err(p) => vec![format!("staged signing: panic: {p}")],
+        Ok(Err(e)) => vec![format!("staged signing failed: {e}")],
+        Ok(Ok(tx)) => check_tx(x, m, &tx, None).into_iter().map(|e| format!("staged signing: {e}")).collect(),
+    }
 }
 
 // =================================================================================================
